@@ -137,7 +137,8 @@ func (p *connPool) connect() (conn *ClientConn, err error) {
 	defer cancel()
 	conn, err = ConnectClient(ctx, p.config.Endpoint, ClientConnConfig{
 		PreparedCache: p.preparedCache,
-		Logger:        p.logger})
+		Logger:        p.logger,
+		Compression:   p.config.Compression})
 	if err != nil {
 		return nil, err
 	}
